@@ -563,6 +563,20 @@ def execute(case, keep_text=False):
                     raise Stop()
                 entry('%s/%s' % (cname, nme), stored[cname][nme], cflux, ctau)
 
+    def window_covers_own_grids(sub):
+        """A molecule tabulated on its own (other) grid can only be
+        interpolated onto a window that holds at least two of its points (with
+        the tiny grids used here a narrow window may fall between two)"""
+        own = cfg['opac'].get('own_grid') or {}
+        if not own:
+            return True
+        wn_ = S.native_grid(cfg)
+        lin = np.linspace(wn_[0], wn_[-1], len(wn_))
+        inside = int(np.sum((lin >= sub.min()) & (lin <= sub.max())))
+        if inside < 2:
+            out.bump('probes', 'window_between_own_grid_points_skipped')
+        return inside >= 2
+
     obs = S.build_obs(case['config']['obs'])
     try:
         check_list(-1, 'build')
@@ -595,7 +609,7 @@ def execute(case, keep_text=False):
                 lo = wn[0] + op[1] * (wn[-1] - wn[0])
                 hi = wn[0] + min(op[2], 1.0) * (wn[-1] - wn[0])
                 sub = wn[(wn >= lo) & (wn <= hi)]
-                if len(sub) < 2:
+                if len(sub) < 2 or not window_covers_own_grids(sub):
                     continue
                 evaluate(step, 'model_sub', lambda m: m.model(wngrid=sub),
                          lambda m: m.model(wngrid=sub),
@@ -610,7 +624,7 @@ def execute(case, keep_text=False):
                     lo = wn[0] + op[1] * (wn[-1] - wn[0])
                     hi = wn[0] + min(op[2], 1.0) * (wn[-1] - wn[0])
                     sub = wn[(wn >= lo) & (wn <= hi)]
-                    if len(sub) < 2:
+                    if len(sub) < 2 or not window_covers_own_grids(sub):
                         continue
                     k = 'model_contrib' if k == 'contrib_sub' \
                         else 'model_full_contrib'
